@@ -206,7 +206,12 @@ def run(ctx):
         nrej = len(badrows)
         if thorough:
             # the typing / method tables completely; of the random primitive applications a sample
-            badrows = [r for r in badrows if r[0] != 'prim'] + rng.sample([r for r in badrows if r[0] == 'prim'], min(300, len([r for r in badrows if r[0] == 'prim'])))
+            # (the typing table completely; the method table - mostly 'unknown method' rows - and
+            # the random primitive applications sampled, to stay inside the time envelope)
+            def some(kind, n):
+                rows = [r for r in badrows if r[0] == kind]
+                return rng.sample(rows, min(n, len(rows)))
+            badrows = [r for r in badrows if r[0] == 'typing'] + some('method', 500) + some('prim', 300)
         for k, i, s in (badrows if thorough else rng.sample(badrows, min(nbad, len(badrows)))):
             # the rejected statement ends a generated valid program, so that the same meson run
             # also compares a few dozen ordinary statements
@@ -215,11 +220,11 @@ def run(ctx):
         ctx.extra['table'] = {'rows': len(table), 'accepted_by_model': len(okrows), 'rejected_by_model': nrej,
                               'out_of_model': oom_table, 'rejected_run': len(badrows) if thorough else min(nbad, len(badrows)),
                               'random_primitive_applications': nprim,
-                              'exhaustive': bool(thorough), 'exhaustive_accepted': True}
+                              'exhaustive': False, 'exhaustive_typing_table': bool(thorough), 'exhaustive_accepted': True}
 
     # 3. structured random programs (mostly valid) and the same with one erroneous statement
-    nvalid = 1600 if thorough else 90
-    nerr = 1400 if thorough else 30
+    nvalid = 800 if thorough else 90
+    nerr = 500 if thorough else 30
     if True:
         # every erroneous statement of the list once per run, alone
         for j, e in enumerate(G.ERRORS):
@@ -238,14 +243,6 @@ def run(ctx):
 
     t1 = time.time()
     impl, model, outs = run_both(ctx, [c['files'] for c in cases], built)
-    per = (time.time() - t1) / max(1, len(cases))
-    if not thorough:
-        # keep the quick tier inside its time envelope on a loaded machine: the random stream is
-        # cut (never below 60 projects) when the fixed part already ran slowly
-        budget = 75 - (time.time() - ctx.t0)
-        keep = max(60, min(len(rnd), int(budget / max(per * 1.6, 0.02))))
-        ctx.extra['random_projects_planned'] = len(rnd)
-        rnd = rnd[:keep]
     for c in rnd:
         cases.append(c)
         dist[c['kind']] = dist.get(c['kind'], 0) + 1
@@ -281,6 +278,10 @@ def run(ctx):
     ctx.extra['statements_evaluated'] = nstmt
     ctx.extra['messages_compared'] = sum(len(r['msgs']) for r in impl)
     ctx.extra['projects_run'] = len(cases)
+    # the generated inputs are a function of the seed alone: their digest makes that checkable
+    hs = [hashlib.sha1(json.dumps(c['files'], sort_keys=True).encode()).hexdigest() for c in cases]
+    ctx.extra['generated_projects_digest'] = hashlib.sha1(''.join(hs).encode()).hexdigest()
+    ctx.extra['generated_projects_first'] = hs[:3] + hs[-3:]
     ctx.extra['out_of_model'] = out_of_model
     ctx.extra['input_distribution'] = {'projects_by_kind': dist, 'model_outcome_classes': cls_dist,
                                        'error_statement_kinds': len(G.ERRORS),
